@@ -1,10 +1,11 @@
 // Package vrf is a deterministic pure-Go stand-in for the (absent) Rust Bandersnatch VRF
 // submodule. It is injected with `go build -overlay` by /verif only; nothing here is
 // cryptography. Scheme (all hashes Blake2b-256):
-//   pk            = H("pk" || sk)
-//   IETF sig (96) = out(32) || tag(32) || zero(32),  out = H("out"||pk||context),
-//                   tag = H("tag"||pk||context||message)
-//   ring sig (784)= id(32) || ... ; valid iff last byte != 0xFF ; output = id
+//
+//	pk            = H("pk" || sk)
+//	IETF sig (96) = out(32) || tag(32) || zero(32),  out = H("out"||pk||context),
+//	                tag = H("tag"||pk||context||message)
+//	ring sig (784)= id(32) || ... ; valid iff last byte != 0xFF ; output = id
 package vrf
 
 import (
